@@ -311,21 +311,23 @@ def check_basic(ctx, F, by_name, tag):
         okh = len(H) == 1 and H[0]["ty"] == "usize" and H[0]["mod"] == "once" and m(Call(lenf, Param(0)), H[0]["recv"])
         ctx.ob("C06.R2.basic.bytes-header", short + tag, where, okh, "formula", "header = [len(self) as usize]: %s" % serfmt.describe(H))
         bb = f["serialize_body"]
-        wa = calls_named(bb, lambda x: x == "std::io::Write::write_all")
+        wa = serfmt.effective_calls(F, bb, lambda x: x == "std::io::Write::write_all")
         okb = len(wa) == 2
-        detail = "%d write_all calls" % len(wa)
+        detail = "%d write_all calls (directly or through one helper)" % len(wa)
         if okb:
-            wa.sort(key=lambda x: serfmt.rpo(bb)[x[0]])
-            first = m(Call(bytesf, Param(0)), bb.term_of_operand(wa[0][1]["args"][1])) and serfmt.modifier(bb, wa[0][0], serfmt.avoid_blocks(bb)) == "once"
+            first = m(Call(bytesf, Param(0)), wa[0]["args"][1]) and wa[0]["mod"] == "once" and core(wa[0]["args"][0])[:2] == ("param", 1)
             env = {}
-            pad = bb.term_of_operand(wa[1][1]["args"][1])
+            pad = wa[1]["args"][1]
             second = m(Call(lambda x: "Index" in x and x.endswith("::index"), ("repeat", Const(0), ANY),
-                            ("adt", "std::ops::Range", "Range", ANY, (Const(0), Bin("Sub", Call("bits::round_up_to_word_bytes", Call(lenf, Param(0))), Call(lenf, Param(0)))))), pad, env)
+                            ("adt", "std::ops::Range", "Range", ANY, (Const(0), Bin("Sub", Call("bits::round_up_to_word_bytes", Call(lenf, Param(0))), Call(lenf, Param(0)))))), pad, env) \
+                and core(wa[1]["args"][0])[:2] == ("param", 1)
             # padding only when padded_len > len
-            fs = facts_at(bb, wa[1][0])
-            guard = any(fc[0] == "cmp" and fc[1] == "Gt" and m(Call("bits::round_up_to_word_bytes", Call(lenf, Param(0))), fc[2]) and m(Call(lenf, Param(0)), fc[3]) for fc in fs)
+            fs = wa[1]["facts"]
+            guard = any(fc[0] == "cmp" and ((fc[1] == "Gt" and m(Call("bits::round_up_to_word_bytes", Call(lenf, Param(0))), fc[2]) and m(Call(lenf, Param(0)), fc[3])) or
+                                            (fc[1] == "Lt" and m(Call("bits::round_up_to_word_bytes", Call(lenf, Param(0))), fc[3]) and m(Call(lenf, Param(0)), fc[2]))) for fc in fs)
             okb = first and second and guard
-            detail = "body = bytes then zero padding of round_up_to_word_bytes(len) - len bytes when > 0: first=%s padding=%s guard=%s" % (first, second, guard)
+            detail = "body = bytes then zero padding of round_up_to_word_bytes(len) - len bytes when > 0%s: first=%s padding=%s guard=%s" % (
+                (" (padding written by helper %s)" % wa[1]["via"]) if wa[1]["via"] else "", first, second, guard)
         ctx.ob("C06.R2.basic.bytes-body", short + tag, where, okb, "formula", detail)
         sb = f["size_in_elements"]
         ctx.ob("C06.R2.basic.bytes-size", short + tag, where,
@@ -385,7 +387,11 @@ def check_basic(ctx, F, by_name, tag):
             okh = len(vals) == 2 and len(zero) == 1 and len(some) == 1
             if okh:
                 fs = facts_at(hb, some[0][2])
-                okh = any(fc[0] == "discr" and fc[2] == 1 for fc in fs) and hb.dominates(zero[0][2], some[0][2])
+                in_some = any(fc[0] == "discr" and fc[2] == 1 for fc in fs)
+                # the 0 is either the initial value overwritten in the Some arm, or the value of the None arm
+                fz = facts_at(hb, zero[0][2])
+                in_none = any(fc[0] == "discr" and (fc[2] == 0 or (isinstance(fc[2], tuple) and fc[2][0] == "not" and 1 in fc[2][1])) for fc in fz)
+                okh = in_some and (hb.dominates(zero[0][2], some[0][2]) or in_none)
             detail = "header element = 0, overwritten by value.size_in_elements() exactly in the Some arm: %s" % okh
     ctx.ob("C06.R2.basic.option-header", "Option<V>" + tag, where, okh, "formula+dominance", detail)
     B = serfmt.write_seq(f["serialize_body"])
